@@ -83,6 +83,12 @@ class VariableTransformer:
         if np.isscalar(pub):
             pub = pub * np.ones((1, D))
 
+        # Work in floating point (integer-typed bounds would truncate the log transform)
+        lb = np.asarray(lb, dtype=float)
+        ub = np.asarray(ub, dtype=float)
+        plb = np.asarray(plb, dtype=float)
+        pub = np.asarray(pub, dtype=float)
+
         # Save original vectors
         self.orig_ub = ub.copy()
         self.orig_lb = lb.copy()
